@@ -79,6 +79,23 @@ package prometheus
 //@   loop#2 invariant positiveBuckets != nil
 //@   loop#3 invariant negativeBuckets != nil && positiveBuckets != nil
 
+// scope info: the scope's real name and version are the LAST two attributes of the list the label set is built from, after the
+// scope's own attributes - attribute.NewSet keeps the last value of a duplicate key, so an attribute that happens to be called
+// otel_scope_name / otel_scope_version can never replace them; the series is a gauge with value 1, labels and values paired
+//@ func createScopeInfoMetric(scope instrumentation.Scope) (m prometheus.Metric, err error)
+//@   overflow assumed
+//@   unchecked frame,no-panic fresh slices are written; Prometheus client calls
+//@   assert@call NewSet#1 : len($arg0) == setLen(scope.Attributes.equivalent) + 2
+//@   assert@call NewSet#1 : len($arg0) >= 2 && $arg0[len($arg0)-2].Key == scopeNameLabel && $arg0[len($arg0)-1].Key == scopeVersionLabel
+//@   assert@call NewSet#1 : len($arg0) >= 2 && $arg0[len($arg0)-2].Value.stringly == scope.Name && $arg0[len($arg0)-1].Value.stringly == scope.Version
+//@   assert@call NewDesc#1 : $arg0 == scopeInfoMetricName && $arg2 === keys
+//@   assert@call NewConstMetric#1 : $arg1 == prometheus.GaugeValue && $arg3 === values
+//@ func createInfoMetric(name string, description string, res *resource.Resource) (m prometheus.Metric, err error)
+//@   overflow assumed
+//@   unchecked frame,no-panic fresh slices are written; Prometheus client calls; resource accessors
+//@   assert@call NewDesc#1 : $arg0 == name && $arg1 == description && $arg2 === keys
+//@   assert@call NewConstMetric#1 : $arg1 == prometheus.GaugeValue && $arg3 === values
+
 // sums and gauges: monotonic sums are counters, everything else a gauge; the exposed value is the data point's value
 //@ func addSumMetric(ch chan<- prometheus.Metric, sum metricdata.Sum[$N], m metricdata.Metrics, name string, kv keyVals)
 //@   instances int64; float64
